@@ -372,6 +372,7 @@ def run_programs(ctx, n, model_ok=True):
     progs = [gen_program(ctx.rng) for _ in range(n)]
     # fixed witnesses first (corpus of the design document)
     fixed = [
+        {"src": "(-1.0)::a; 0.5::b.\nquery(b).", "facts": [0.5], "groups": [[0.5]], "declared": [[-1.0, 0.5]], "partial": True, "kinds": {"ad-partially-queried"}},
         {"src": "0.6::a; 0.7::b.\nquery(a).\nquery(b).", "facts": [0.6, 0.7], "groups": [[0.6, 0.7]], "declared": [[0.6, 0.7]], "partial": False, "kinds": {"ad-sum-over"}},
         {"src": "0.7::a; 0.7::b.\nquery(a).\nquery(b).", "facts": [0.7, 0.7], "groups": [[0.7, 0.7]], "declared": [[0.7, 0.7]], "partial": False, "kinds": {"ad-sum-over"}},
         {"src": "0.7::a; 0.7::b.\nquery(a).", "facts": [0.7], "groups": [[0.7]], "declared": [[0.7, 0.7]], "partial": True, "kinds": {"ad-sum-over", "ad-partially-queried"}},
